@@ -151,19 +151,19 @@ var agreeOps = []op{
 	}},
 	{"sm9 key exchange to the end: shared user key initiates, a user key derived from the shared master responds", "sm9enc", func(o *objset, m *material, s uint64) []byte {
 		uid := derivedUID(s)
-		pk, err := o.encMaster.GenerateUserKey(uid, hidEnc)
+		pk, err := o.sm9of(s).encMaster.GenerateUserKey(uid, hidEnc)
 		if err != nil {
 			return res(nil, err)
 		}
-		return sm9Exchange(o.encUser, pk, m.uid, uid, s, "kx-5")
+		return sm9Exchange(o.sm9of(s).encUser, pk, m.uid, uid, s, "kx-5")
 	}},
 	{"sm9 key exchange to the end: two user keys derived from the shared master", "sm9enc", func(o *objset, m *material, s uint64) []byte {
 		uidA, uidB := derivedUID(s), []byte(fmt.Sprintf("peer-%05x", (s>>20)&0xfffff))
-		ka, err := o.encMaster.GenerateUserKey(uidA, hidEnc)
+		ka, err := o.sm9of(s).encMaster.GenerateUserKey(uidA, hidEnc)
 		if err != nil {
 			return res(nil, err)
 		}
-		kb, err := o.encMaster.GenerateUserKey(uidB, hidEnc)
+		kb, err := o.sm9of(s).encMaster.GenerateUserKey(uidB, hidEnc)
 		if err != nil {
 			return res(nil, err)
 		}
@@ -171,10 +171,10 @@ var agreeOps = []op{
 	}},
 	{"sm9 key exchange to the end: a derived user key initiates, the shared user key responds", "sm9enc", func(o *objset, m *material, s uint64) []byte {
 		uid := derivedUID(s)
-		pk, err := o.encMaster.GenerateUserKey(uid, hidEnc)
+		pk, err := o.sm9of(s).encMaster.GenerateUserKey(uid, hidEnc)
 		if err != nil {
 			return res(nil, err)
 		}
-		return sm9Exchange(pk, o.encUser, uid, m.uid, s, "kx-7")
+		return sm9Exchange(pk, o.sm9of(s).encUser, uid, m.uid, s, "kx-7")
 	}},
 }
